@@ -54,15 +54,13 @@ on the backend.  A single task never finds the lock taken; if it is (a foreign h
 code sleeps and retries until `timeout` and raises `LockedError` — the model answers `false`
 without modelling that wait (contention is C05's business). -/
 def lockUpdates (st : TxSt) (k : Key) : TxSt × Bool :=
-  match st.mode with
-  | .fast => (st, true)
-  | m =>
-    let lk := lockKey m k
-    if lk ∈ st.locks then (st, true)                       -- `if lock_key in self._locks: return`
-    else
-      let (b', o) := st.b.step (.set lk (.tok st.lockId) (some st.timeout) .nx)
-      if o = .bool true then ({ st with b := b', locks := lk :: st.locks }, true)
-      else ({ st with b := b' }, false)
+  if st.mode = .fast then (st, true)                       -- plain `TransactionBackend`: no locks
+  else if lockKey st.mode k ∈ st.locks then (st, true)     -- `if lock_key in self._locks: return`
+  else if (st.b.step (.set (lockKey st.mode k) (.tok st.lockId) (some st.timeout) .nx)).2 = .bool true then
+    ({ st with b := (st.b.step (.set (lockKey st.mode k) (.tok st.lockId) (some st.timeout) .nx)).1,
+               locks := lockKey st.mode k :: st.locks }, true)      -- `self._locks.add(lock_key); return`
+  else
+    ({ st with b := (st.b.step (.set (lockKey st.mode k) (.tok st.lockId) (some st.timeout) .nx)).1 }, false)
 
 /-- `for key in keys: await self._lock_updates(key)` -/
 def lockAll (st : TxSt) : List Key → TxSt × Bool
@@ -104,54 +102,53 @@ def set (st : TxSt) (k : Key) (v : Val) (ttl : Option Nat) (c : Cond) : TxSt × 
     let (st', e) := st.exists_ k
     if e then (st'.put k v ttl, .bool true) else (st', .bool false)
 
-/-- `set_many`: `self._to_delete.difference_update(pairs.keys()); self._local_cache.set_many(pairs, expire)` -/
+/-- `set_many`: `self._to_delete.difference_update(pairs.keys()); self._local_cache.set_many(pairs, expire)`
+— the same overlay `_set` calls and the same resulting set `_to_delete` as `put`-ing the pairs one by one -/
 def setMany (st : TxSt) (kvs : List (Key × Val)) (ttl : Option Nat) : TxSt :=
-  { st with del := st.del.filter (fun k => decide (k ∉ kvs.map (·.1))),
-            ov := kvs.foldl (fun s kv => s.rawSet kv.1 kv.2 ttl) st.ov }
+  kvs.foldl (fun s kv => s.put kv.1 kv.2 ttl) st
 
-/-- `incr`: seed the overlay from the backend unless the key is already there or pending delete -/
+/-- first half of `incr`: seed the overlay from the backend unless the key is already there or pending delete -/
+def seed (st : TxSt) (k : Key) : TxSt :=
+  if (st.ov.rawGet k).2.isNone ∧ k ∉ st.del then           -- `if not await self._local_cache.exists(key) and key not in self._to_delete:`
+    -- `current = await self._backend.get(key, 0); await self._local_cache.set(key, current)`
+    { st with b := (st.b.rawGet k).1,
+              ov := (st.ov.rawGet k).1.rawSet k ((st.b.rawGet k).2.getD (.int 0)) none }
+  else { st with ov := (st.ov.rawGet k).1 }
+
+/-- `incr` -/
 def incr (st : TxSt) (k : Key) (by_ : Int) (ttl : Option Nat) : TxSt × Out :=
-  let (ov1, r) := st.ov.rawGet k                           -- `if not await self._local_cache.exists(key)`
-  let st1 : TxSt :=
-    if r.isNone ∧ k ∉ st.del then               -- `and key not in self._to_delete:`
-      let (b', cur) := st.b.rawGet k                       -- `current = await self._backend.get(key, 0)`
-      { st with b := b', ov := ov1.rawSet k (cur.getD (.int 0)) none }   -- `await self._local_cache.set(key, current)`
-    else { st with ov := ov1 }
-  let st2 := { st1 with del := st1.del.filter (· ≠ k) }    -- `self._to_delete.discard(key)`
-  let (ov2, o) := st2.ov.step (.incr k by_ ttl)            -- `return await self._local_cache.incr(key, value, expire=expire)`
-  ({ st2 with ov := ov2 }, o)
+  let st1 := st.seed k
+  -- `self._to_delete.discard(key); return await self._local_cache.incr(key, value, expire=expire)`
+  ({ st1 with del := st1.del.filter (· ≠ k), ov := (st1.ov.step (.incr k by_ ttl)).1 },
+   (st1.ov.step (.incr k by_ ttl)).2)
 
 /-- `delete`: `await self._local_cache.delete(key); self._to_delete.add(key); return True` -/
 def delete (st : TxSt) (k : Key) : TxSt :=
   { st with ov := (st.ov.rawDelete k).1, del := k :: st.del }
 
-/-- `delete_many` -/
-def deleteMany (st : TxSt) (ks : List Key) : TxSt :=
-  { st with ov := ks.foldl (fun s k => (s.rawDelete k).1) st.ov, del := ks ++ st.del }
+/-- `delete_many`: `await self._local_cache.delete_many(*keys); self._to_delete.update(keys)` — the same
+overlay `_delete` calls and the same resulting *set* `_to_delete` as deleting the keys one by one -/
+def deleteMany (st : TxSt) (ks : List Key) : TxSt := ks.foldl delete st
 
 /-- `expire` (4d68168: the overlay is consulted first) -/
 def expire (st : TxSt) (k : Key) (ttl : Option Nat) : TxSt :=
   if k ∈ st.del then st                                    -- `if self._key_is_delete(key): return`
+  else if (st.ov.rawGet k).2.isSome then                   -- `if await self._local_cache.exists(key):`
+    { st with ov := ((st.ov.rawGet k).1.step (.expire k ttl)).1 }   -- `return await self._local_cache.expire(key, timeout)`
   else
-    let (ov1, r) := st.ov.rawGet k                         -- `if await self._local_cache.exists(key):`
-    if r.isSome then
-      { st with ov := (ov1.step (.expire k ttl)).1 }       -- `return await self._local_cache.expire(key, timeout)`
-    else
-      let (b', v) := st.b.rawGet k                         -- `value = await self._backend.get(key, default=_empty)`
-      match v with
-      | none => { st with ov := ov1, b := b' }
-      | some v => { st with b := b', ov := ov1.rawSet k v ttl }   -- `await self._local_cache.set(key, value, expire=timeout)`
+    match (st.b.rawGet k).2 with                           -- `value = await self._backend.get(key, default=_empty)`
+    | none => { st with ov := (st.ov.rawGet k).1, b := (st.b.rawGet k).1 }
+    | some v =>                                            -- `await self._local_cache.set(key, value, expire=timeout)`
+      { st with b := (st.b.rawGet k).1, ov := (st.ov.rawGet k).1.rawSet k v ttl }
 
 /-- `get` -/
 def get (st : TxSt) (k : Key) : TxSt × Option Val :=
   if k ∈ st.del then (st, none)                            -- `if self._key_is_delete(key): return default`
   else
-    let (ov', r) := st.ov.rawGet k
-    match r with
-    | some v => ({ st with ov := ov' }, some v)
-    | none =>
-      let (b', r') := st.b.rawGet k                        -- `return await self._backend.get(key, default=default)`
-      ({ st with ov := ov', b := b' }, r')
+    match (st.ov.rawGet k).2 with                          -- `value = await self._local_cache.get(key, default=_empty)`
+    | some v => ({ st with ov := (st.ov.rawGet k).1 }, some v)
+    | none =>                                              -- `return await self._backend.get(key, default=default)`
+      ({ st with ov := (st.ov.rawGet k).1, b := (st.b.rawGet k).1 }, (st.b.rawGet k).2)
 
 /-- `get_many`: overlay hit wins; otherwise the backend's answer unless the key is pending delete.
 (The code asks the overlay for all keys, then the backend for all missed keys, each in `set`
@@ -160,15 +157,13 @@ recency order of the two stores — not observable here — differs.) -/
 def getMany (st : TxSt) : List Key → TxSt × List (Option Val)
   | [] => (st, [])
   | k :: ks =>
-    let (ov', r) := st.ov.rawGet k
-    match r with
+    match (st.ov.rawGet k).2 with
     | some v =>
-      let (st', vs) := getMany { st with ov := ov' } ks
-      (st', some v :: vs)
+      let r := getMany { st with ov := (st.ov.rawGet k).1 } ks
+      (r.1, some v :: r.2)
     | none =>
-      let (b', r') := st.b.rawGet k
-      let (st', vs) := getMany { st with ov := ov', b := b' } ks
-      (st', (if k ∈ st.del then none else r') :: vs)
+      let r := getMany { st with ov := (st.ov.rawGet k).1, b := (st.b.rawGet k).1 } ks
+      (r.1, (if k ∈ st.del then none else (st.b.rawGet k).2) :: r.2)
 
 /-- `get_expire` (does not touch either store) -/
 def getExpire (st : TxSt) (k : Key) : Int :=
